@@ -27,7 +27,8 @@ MANIFEST = {
                 "isRunning, kill, join(exitCode), join(), close(streams) translated over a kernel ghost (system-call trace, waitpid oracle) and "
                 "proved, for every object and both waitpid outcomes, to change the '0 = closed' flags and return as Proc.step says, to store "
                 "WEXITSTATUS, and to make exactly the system calls of Kernel.joinProgram in its order (close stdin end, waitpid, close read "
-                "ends) - the action list of join_returns_exit_code_in_pipe_model is thereby derived from the current body.  A change of these C++ bodies changes the generated Lean "
+                "ends) - the action list of join_returns_exit_code_in_pipe_model is thereby derived from the current body; Process::exit passes "
+                "its argument to _exit; setEnvironmentVariable = the model's function (POSIX setenv/unsetenv as primitives).  A change of these C++ bodies changes the generated Lean "
                 "definitions and the equality proofs fail; a construct outside the translated subset is refused (broken tie).  "
                 "PROVED about the model of the code, for all inputs: option tables x argument vectors (result sequence = getopt "
                 "conventions, no read outside the argument strings / option names, termination); command lines (tokenizer refinement, "
@@ -62,7 +63,7 @@ MANIFEST = {
                 "System calls of the translated Process-object functions: ::close / ::kill append to a trace, `waitpid(pid, &status, 0) != "
                 "(pid_t)pid` is one oracle-answered condition (waitpid returns the requested pid or -1), CSemProc.lean.  "
                 "Everything of Process.cpp OTHER than nextChar / read / the Arguments constructor / splitCommandLine / Process(), ~Process, "
-                "isRunning, kill, join, close (i.e. start, open, read, write, wait, interrupt, daemonize, environment) is still a HAND translation into the model, validated by the "
+                "isRunning, kill, join, close, exit, setEnvironmentVariable (i.e. start, open, read, write, wait, interrupt, daemonize, environment) is still a HAND translation into the model, validated by the "
                 "correspondence run, not proved.  A harmless restructuring of a translated body breaks the equality proof (reported as "
                 "'proof obligations / model tie no longer check' without failing input).  Checked-memory abstraction (one block per argv word / option name, the option table holds "
                 "null or NUL-free terminated names); Map iteration = ascending key order (C01).  'getopt rules' means the "
